@@ -103,6 +103,8 @@ class Dom:
                 a, b = f[1][1], f[1][2]
                 if not (numericish(a) and numericish(b)): continue
                 self.add_equality(a, b)
+            elif f[0] == 'is' and f[2] == 'Equal' and f[1][0] == 'ordcmp':
+                self.add_equality(f[1][1], f[1][2])
 
     def add_equality(self, a, b):
         d = self.poly(a) - self.poly(b)
